@@ -24,6 +24,7 @@ type c13Case struct {
 	Critical bool    `json:"critical"`
 	Resv     bool    `json:"reserved_bits"`
 	InSK     bool    `json:"inside_sk"`
+	OuterSK  bool    `json:"before_sk"` // the insertion sits in the cleartext outer chain in front of the SK payload
 	CritImpl int     `json:"critical_on_implemented"` // -1 or index of an implemented payload carrying the critical flag
 }
 
@@ -126,6 +127,11 @@ func runC13(c *engine.Ctx) {
 						}
 					}
 				}
+				if bi%9 == 0 && len(pos) == 1 && pos[0] == 0 {
+					evalC13(c, c13Case{Name: base.name, M: base.m, Pos: pos, Type: t, Len: 5, Content: 2, OuterSK: true, CritImpl: -1})
+					evalC13(c, c13Case{Name: base.name, M: base.m, Pos: pos, Type: t, Len: 0, Content: 0, Resv: true, OuterSK: true, CritImpl: -1})
+					evalC13(c, c13Case{Name: base.name, M: base.m, Pos: pos, Type: t, Len: 9, Content: 1, Critical: true, OuterSK: true, CritImpl: -1})
+				}
 				if bi%9 == 0 {
 					evalC13(c, c13Case{Name: base.name, M: base.m, Pos: pos, Type: t, Len: 5, Content: 2, InSK: true, CritImpl: -1})
 					evalC13(c, c13Case{Name: base.name, M: base.m, Pos: pos, Type: t, Len: 5, Content: 2, Critical: true, InSK: true, CritImpl: -1})
@@ -171,7 +177,32 @@ func evalC13(c *engine.Ctx, cs c13Case) {
 	var derr error
 	var pinfo *engine.PanicInfo
 	var wire []byte
-	if cs.InSK {
+	if cs.OuterSK {
+		ks := univ.MakeKeySet(4, 2, 2)
+		ske, ska := ks.DirKeys(true)
+		_, inner, err := ref.EncodeChain(m.P, ref.Lib{})
+		if err != nil {
+			return
+		}
+		pad := (16 - (len(inner)+1)%16) % 16
+		var ol ref.Lib
+		if cs.Critical {
+			ol.Critical = 1
+		}
+		if cs.Resv {
+			ol.PayRes = 1
+		}
+		wire, err = ref.ProtectOuter(ks.Suite, ske, ska, m, ref.Lib{}, univ.Pat(16, 1), univ.Pat(pad, 2), []ref.Payload{ins}, ol)
+		if err != nil {
+			return
+		}
+		sa, err := univ.NewSA(ks)
+		if err != nil {
+			c.Violate("sa-construction", errStr(err), cs)
+			return
+		}
+		pinfo = engine.Catch(func() { got, derr = ike.DecodeDecrypt(wire, nil, sa, message.Role_Responder) })
+	} else if cs.InSK {
 		ks := univ.MakeKeySet(4, 2, 2)
 		ske, ska := ks.DirKeys(true)
 		_, inner, err := ref.EncodeChain(with.P, lib)
@@ -202,6 +233,9 @@ func evalC13(c *engine.Ctx, cs c13Case) {
 	where := "plain"
 	if cs.InSK {
 		where = "inside-sk"
+	}
+	if cs.OuterSK {
+		where = "before-sk"
 	}
 	posClass := "front"
 	if len(cs.Pos) > 1 {
